@@ -12,7 +12,12 @@ CHECKS = {
             "model-based property testing (rapid) + exhaustive small-scope enumeration against a reference model",
             "Generated committees and commitment streams (rapid, 16 shards) plus exhaustive enumeration of all short streams for small "
             "committees; after every step the real pool's admission decision, outcome class and finalized commitment are compared with a "
-            "reference model written from the statement. Finds any disagreement inside the explored bounds; proves nothing beyond them.",
+            "reference model written from the statement. Finds any disagreement inside the explored bounds; proves nothing beyond them. "
+            "Application level (TestC11App): the real roothash ABCI application is driven through the in-process chain engine with generated ExecutorCommit "
+            "transactions (agreeing, dissenting, failure-indicating, duplicate, non-member, wrong-round, every scheduler rank; batched and spread over blocks so "
+            "that proposer and discrepancy timeouts fire); the same reference model is replayed in the application's own order of processing and after every "
+            "block the admission of each transaction, the emitted runtime block (Normal / RoundFailed / EpochTransition, round, state and IO root, previous "
+            "hash), the discrepancy flag, highest rank and the next timeout height are compared.",
             "Assumes commitments passed VerifyExecutorCommitment (same round, no scheduler failure for itself) and round numbers far below "
             "2^64 (SchedulerRank wraps there); the reference model is trusted as the reading of the statement.",
             "DESIGN.md 4/C11"),
